@@ -157,6 +157,11 @@ class EWMean(Aggregation):
 
     def on_new(self, acc, new):
         result, old_wt, is_first = acc
+        if not len(new):
+            return acc, result
+        if is_first and not len(result):
+            # the batch the state was initialised from was empty
+            result = new.iloc[:1]
         for i in range(int(is_first), len(new)):
             old_wt *= self.old_wt_factor
             result = ((old_wt * result) + (self.new_wt * new.iloc[i])) / (old_wt + self.new_wt)
